@@ -1,6 +1,6 @@
 /*
- * Extra shim for C05 / C06 (protocol layer): layouts of the protocol structs, pairing
- * parameter activation for a chosen curve, macro-only group APIs.
+ * Extra shim for C05 / C06 (protocol layer): layouts of the protocol structs and constants of the
+ * protocol configuration, constructor for arrays of multiplication triples.
  * Compiled against each fresh build as libvfx_c05.so; never part of /repo.
  */
 #include <stdint.h>
@@ -42,22 +42,7 @@ static const struct vfc5 c5[] = {
 const char *vf_c05_const_name(int i) { return c5[i].name; }
 long long vf_c05_const_val(int i) { return c5[i].v; }
 
-/* Activate a pairing-friendly prime curve by identifier, together with its degree-2 twist
- * (what ep_param_set_any_pairf does for its single hard-wired choice). */
-int vf_c05_pc_set(int id, int type) {
-	int r = 0;
-	RLC_TRY {
-		ep_param_set(id);
-		ep2_curve_set_twist(type);
-	} RLC_CATCH_ANY {
-		r = 1;
-	}
-	return r;
-}
-
-int vf_c05_ep2_is_twist(void) { return ep2_curve_is_twist(); }
-
-/* size_t in/out cell helpers are done from Python; fresh RSA-style key objects beyond the core shim: */
+/* arrays of multiplication triples (mt_t[n], ALLOC=AUTO layout) with initialised integers */
 #ifdef WITH_MPC
 void *vf_c05_mt_new(int n) {
 	mt_st *t = (mt_st *)calloc(n, sizeof(mt_st));
